@@ -418,6 +418,12 @@ def parse_params(text,
                     raise ParseError(
                         'Attribute %s requires a value' % name, tag)
 
+                if name in result:
+                    p = parms[name]
+                    if type(p) is not ListType or p:
+                        raise ParseError(
+                            'Duplicate values for attribute "%s"' % name, tag)
+
                 result[name] = parms[name]
             else:
                 raise ParseError(
